@@ -1,41 +1,45 @@
 import FranzVerif.Model.Select
 import FranzVerif.Proof.Select
 /-! C39 — a direct consumer consumes exactly the partitions it selects. Theorems over ALL accepted histories of the
-`sel` monitor `Model.Select` (any interleaving of topic creation / growth / deletion, AddConsumeTopics,
+`sel` monitor `Model.Select` (any interleaving of topic creation / growth / deletion / RE-CREATION, AddConsumeTopics,
 AddConsumePartitions, RemoveConsumePartitions, purges, producer rounds, polls and metadata refreshes); the tie is the
 history correspondence of the `sel` scenarios (real kgo direct consumer × real kfake). "Selected at that moment" is
-`selected c (replay c h₁)`: the selection rule evaluated on the configuration and the calls of the history so far. -/
+`selected c (replay c h₁)`: the selection rule evaluated on the configuration and the calls of the history so far.
+A topic deleted and created again under the same name is a new INCARNATION (`created t g n …`); acknowledged and returned
+records carry the incarnation they were produced to. -/
 namespace Props.C39
 open Model.Select Proof.Select
 
 /-- Every returned record belongs to a partition that is selected at that moment. -/
-theorem returned_only_from_selected (c : Cfg) (h₁ h₂ : List Ev) (s : St) (t p off id : Nat)
-    (hacc : run c {} (h₁ ++ Ev.returned t p off id :: h₂) = some s) : selected c (replay c h₁) t p = true := by
+theorem returned_only_from_selected (c : Cfg) (h₁ h₂ : List Ev) (s : St) (t g p off id : Nat)
+    (hacc : run c {} (h₁ ++ Ev.returned t g p off id :: h₂) = some s) : selected c (replay c h₁) t g p = true := by
   have hchk := check_of_run hacc
   simp only [check] at hchk
   split at hchk
-  · assumption
   · cases hchk
+  · rename_i hsel
+    have hsel' : selected c (List.foldl (apply c) {} h₁) t g p = true := by simpa using hsel
+    exact hsel'
 
 /-- Internal topics only when named explicitly (likewise excluded and non-matching topics): under regex selection every
 returned record is of a topic that was created non-internal, matches an include pattern and no exclude pattern. -/
-theorem regex_returns_only_wanted_topics (c : Cfg) (hc : c.regex = true) (h₁ h₂ : List Ev) (s : St) (t p off id : Nat)
-    (hacc : run c {} (h₁ ++ Ev.returned t p off id :: h₂) = some s) :
+theorem regex_returns_only_wanted_topics (c : Cfg) (hc : c.regex = true) (h₁ h₂ : List Ev) (s : St) (t g p off id : Nat)
+    (hacc : run c {} (h₁ ++ Ev.returned t g p off id :: h₂) = some s) :
     ∃ tp, topicOf (replay c h₁) t = some tp ∧ tp.incl = true ∧ tp.excluded = false ∧ tp.internal = false :=
-  ((selected_regex hc _ t p).1 (returned_only_from_selected c h₁ h₂ s t p off id hacc)).1
+  ((selected_regex hc _ t g p).1 (returned_only_from_selected c h₁ h₂ s t g p off id hacc)).1
 
 /-- After RemoveConsumePartitions returned, no further record of the removed partition is returned unless the
 partition is selected again by a later AddConsumePartitions of it or AddConsumeTopics of its topic (named selection;
 under regex selection the call is a documented no-op). -/
-theorem nothing_after_remove (c : Cfg) (hc : c.regex = false) (h₁ h₂ h₃ : List Ev) (s : St) (t p off id : Nat)
-    (hacc : run c {} (h₁ ++ Ev.removePart t p :: (h₂ ++ Ev.returned t p off id :: h₃)) = some s) :
+theorem nothing_after_remove (c : Cfg) (hc : c.regex = false) (h₁ h₂ h₃ : List Ev) (s : St) (t g p off id : Nat)
+    (hacc : run c {} (h₁ ++ Ev.removePart t p :: (h₂ ++ Ev.returned t g p off id :: h₃)) = some s) :
     ∃ e ∈ h₂, Reselects t p e := by
   apply Classical.byContradiction
   intro hno
   have hall : ∀ e ∈ h₂, ¬ Reselects t p e := fun e he hr => hno ⟨e, he, hr⟩
-  have hacc' : run c {} ((h₁ ++ Ev.removePart t p :: h₂) ++ Ev.returned t p off id :: h₃) = some s := by
+  have hacc' : run c {} ((h₁ ++ Ev.removePart t p :: h₂) ++ Ev.returned t g p off id :: h₃) = some s := by
     simpa [List.append_assoc] using hacc
-  have hsel := (selected_named hc _ t p).1 (returned_only_from_selected c _ h₃ s t p off id hacc')
+  have hsel := (selected_named hc _ t g p).1 (returned_only_from_selected c _ h₃ s t g p off id hacc')
   have hrep : replay c (h₁ ++ Ev.removePart t p :: h₂) = h₂.foldl (apply c) (apply c (replay c h₁) (.removePart t p)) := by
     simp [replay, List.foldl_append]
   rw [hrep] at hsel
@@ -43,89 +47,122 @@ theorem nothing_after_remove (c : Cfg) (hc : c.regex = false) (h₁ h₂ h₃ : 
 
 /-- After PurgeTopicsFromConsuming returned, no further record of any partition of the purged topic is returned unless
 it is selected again by a later call (named selection). -/
-theorem nothing_after_purge_named (c : Cfg) (hc : c.regex = false) (h₁ h₂ h₃ : List Ev) (s : St) (t p off id : Nat)
-    (hacc : run c {} (h₁ ++ Ev.purged t :: (h₂ ++ Ev.returned t p off id :: h₃)) = some s) :
+theorem nothing_after_purge_named (c : Cfg) (hc : c.regex = false) (h₁ h₂ h₃ : List Ev) (s : St) (t g p off id : Nat)
+    (hacc : run c {} (h₁ ++ Ev.purged t :: (h₂ ++ Ev.returned t g p off id :: h₃)) = some s) :
     ∃ e ∈ h₂, Reselects t p e := by
   apply Classical.byContradiction
   intro hno
   have hall : ∀ e ∈ h₂, ¬ Reselects t p e := fun e he hr => hno ⟨e, he, hr⟩
-  have hacc' : run c {} ((h₁ ++ Ev.purged t :: h₂) ++ Ev.returned t p off id :: h₃) = some s := by
+  have hacc' : run c {} ((h₁ ++ Ev.purged t :: h₂) ++ Ev.returned t g p off id :: h₃) = some s := by
     simpa [List.append_assoc] using hacc
-  have hsel := (selected_named hc _ t p).1 (returned_only_from_selected c _ h₃ s t p off id hacc')
+  have hsel := (selected_named hc _ t g p).1 (returned_only_from_selected c _ h₃ s t g p off id hacc')
   have hrep : replay c (h₁ ++ Ev.purged t :: h₂) = h₂.foldl (apply c) (apply c (replay c h₁) (.purged t)) := by
     simp [replay, List.foldl_append]
   rw [hrep] at hsel
   exact unselected_preserved_list hc h₂ (unselected_after_purge hc _ t p) hall hsel
 
 /-- Regex selection, the documented exception stated precisely: after PurgeTopicsFromConsuming of a topic the client
-knows, a record of that topic is returned again only after a metadata refresh (the re-discovery) … -/
-theorem regex_purge_needs_refresh (c : Cfg) (hc : c.regex = true) (h₁ h₂ h₃ : List Ev) (s : St) (t p off id : Nat)
-    (hknown : (topicOf (replay c h₁) t).isSome = true)
-    (hacc : run c {} (h₁ ++ Ev.purged t :: (h₂ ++ Ev.returned t p off id :: h₃)) = some s) :
+knows, a record of that topic — of any incarnation while the topic is alive at the purge, of the deleted incarnation
+otherwise — is returned again only after a metadata refresh (the re-discovery) … -/
+theorem regex_purge_needs_refresh (c : Cfg) (hc : c.regex = true) (h₁ h₂ h₃ : List Ev) (s : St) (t g p off id : Nat)
+    (tp : Topic) (hknown : topicOf (replay c h₁) t = some tp) (hg : tp.alive = true ∨ g = tp.gen)
+    (hacc : run c {} (h₁ ++ Ev.purged t :: (h₂ ++ Ev.returned t g p off id :: h₃)) = some s) :
     Ev.refresh ∈ h₂ := by
   apply Classical.byContradiction
   intro hno
   have hall : ∀ e ∈ h₂, e ≠ Ev.refresh := fun e he heq => hno (heq ▸ he)
-  have hacc' : run c {} ((h₁ ++ Ev.purged t :: h₂) ++ Ev.returned t p off id :: h₃) = some s := by
+  have hacc' : run c {} ((h₁ ++ Ev.purged t :: h₂) ++ Ev.returned t g p off id :: h₃) = some s := by
     simpa [List.append_assoc] using hacc
-  have hsel := (selected_regex hc _ t p).1 (returned_only_from_selected c _ h₃ s t p off id hacc')
+  have hsel := (selected_regex hc _ t g p).1 (returned_only_from_selected c _ h₃ s t g p off id hacc')
   have hrep : replay c (h₁ ++ Ev.purged t :: h₂) = h₂.foldl (apply c) (apply c (replay c h₁) (.purged t)) := by
     simp [replay, List.foldl_append]
   rw [hrep] at hsel
-  have hout : t ∈ (apply c (replay c h₁) (.purged t)).waiting ∨ t ∈ (apply c (replay c h₁) (.purged t)).gone := by
-    simp only [apply, hc, ↓reduceIte]
-    cases htp : topicOf (replay c h₁) t with
-    | none => simp [htp] at hknown
-    | some tp =>
-      simp only
-      split
-      · exact Or.inl List.mem_cons_self
-      · exact Or.inr List.mem_cons_self
+  have hout : t ∈ (apply c (replay c h₁) (.purged t)).waiting ∨ (t, g) ∈ (apply c (replay c h₁) (.purged t)).gone := by
+    simp only [apply, hc, ↓reduceIte, hknown]
+    cases ha : tp.alive with
+    | true => exact Or.inl (by simp)
+    | false =>
+      rcases hg with hg | hg
+      · simp [ha] at hg
+      · subst hg; exact Or.inr (by simp)
   rcases out_preserved_list hc h₂ hout hall with h | h
   · exact hsel.2.1 h
   · exact hsel.2.2 h
 
-/-- … and never again when the topic had been deleted before the purge (there is nothing left to re-discover). -/
+/-- … and never again when the topic had been deleted before the purge: nothing of the deleted incarnation comes back,
+whatever happens afterwards — also when the topic is created again (the new incarnation is another topic). -/
 theorem regex_purge_of_deleted_topic_is_final (c : Cfg) (hc : c.regex = true) (h₁ h₂ h₃ : List Ev) (s : St) (t p off id : Nat)
     (tp : Topic) (hknown : topicOf (replay c h₁) t = some tp) (hdead : tp.alive = false)
-    (hacc : run c {} (h₁ ++ Ev.purged t :: (h₂ ++ Ev.returned t p off id :: h₃)) = some s) : False := by
-  have hacc' : run c {} ((h₁ ++ Ev.purged t :: h₂) ++ Ev.returned t p off id :: h₃) = some s := by
+    (hacc : run c {} (h₁ ++ Ev.purged t :: (h₂ ++ Ev.returned t tp.gen p off id :: h₃)) = some s) : False := by
+  have hacc' : run c {} ((h₁ ++ Ev.purged t :: h₂) ++ Ev.returned t tp.gen p off id :: h₃) = some s := by
     simpa [List.append_assoc] using hacc
-  have hsel := (selected_regex hc _ t p).1 (returned_only_from_selected c _ h₃ s t p off id hacc')
+  have hsel := (selected_regex hc _ t tp.gen p).1 (returned_only_from_selected c _ h₃ s t tp.gen p off id hacc')
   have hrep : replay c (h₁ ++ Ev.purged t :: h₂) = h₂.foldl (apply c) (apply c (replay c h₁) (.purged t)) := by
     simp [replay, List.foldl_append]
   rw [hrep] at hsel
-  have hg : t ∈ (apply c (replay c h₁) (.purged t)).gone := by
+  have hg : (t, tp.gen) ∈ (apply c (replay c h₁) (.purged t)).gone := by
     simp only [apply, hc, ↓reduceIte, hknown, hdead, Bool.false_eq_true]
     exact List.mem_cons_self
   exact hsel.2.2 (gone_preserved_list hc h₂ hg)
 
+/-- Topic re-creation, safety: once the client has returned a record of incarnation `g'` of a topic, no record of an
+older incarnation of that topic (a deleted one) is returned any more. -/
+theorem nothing_of_a_deleted_incarnation_after_the_new_one (c : Cfg) (h₁ h₂ h₃ : List Ev) (s : St)
+    (t g' p' off' id' g p off id : Nat)
+    (hacc : run c {} (h₁ ++ Ev.returned t g' p' off' id' :: (h₂ ++ Ev.returned t g p off id :: h₃)) = some s) :
+    g' ≤ g := by
+  have hacc' : run c {} ((h₁ ++ Ev.returned t g' p' off' id' :: h₂) ++ Ev.returned t g p off id :: h₃) = some s := by
+    simpa [List.append_assoc] using hacc
+  have hchk := check_of_run hacc'
+  change check c (replay c (h₁ ++ Ev.returned t g' p' off' id' :: h₂)) (Ev.returned t g p off id) = none at hchk
+  simp only [check] at hchk
+  split at hchk
+  · cases hchk
+  · split at hchk
+    · cases hchk
+    · rename_i hnew
+      have hnew' := Bool.eq_false_iff.2 hnew
+      simp only [newerReturned, replay_ret] at hnew'
+      rw [List.any_eq_false] at hnew'
+      have hm : (t, g', p', off', id') ∈ returnedOf (h₁ ++ Ev.returned t g' p' off' id' :: h₂) :=
+        mem_returnedOf.2 (by simp)
+      have := hnew' _ hm
+      simp only [BEq.rfl, Bool.true_and, decide_eq_true_eq] at this
+      omega
+
 /-- Eventual coverage, judged at the quiescent end of a complete scenario: every acknowledged record of a partition
-that exists and is selected at the end was returned — including partitions of matching topics created later and
-partitions added to existing topics (they exist and are selected at the end like any other). -/
+that exists and is selected at the end — of the CURRENT incarnation of its topic — was returned; including partitions of
+matching topics created later, partitions added to existing topics and topics that were deleted and created again
+(they exist and are selected at the end like any other; a record acknowledged by a deleted incarnation is not owed). -/
 theorem selected_partitions_covered_at_quiescence (c : Cfg) (h : List Ev) (s : St)
     (hacc : run c {} (h ++ [Ev.quiesce]) = some s) (hcomplete : isIncomplete h = false)
-    (id t p off : Nat) (hp : Ev.produced id t p off ∈ h)
-    (hexists : p < aliveParts (replay c h) t) (hsel : selected c (replay c h) t p = true) :
-    ∃ off', Ev.returned t p off' id ∈ h := by
+    (id t g p off : Nat) (hp : Ev.produced id t g p off ∈ h) (hcur : g = genOf (replay c h) t)
+    (hexists : p < aliveParts (replay c h) t) (hsel : selected c (replay c h) t g p = true) :
+    ∃ off', Ev.returned t g p off' id ∈ h := by
   have hchk := check_of_run (h₂ := []) hacc
   change check c (replay c h) Ev.quiesce = none at hchk
   simp only [check, replay_incomplete, hcomplete, Bool.false_eq_true, ↓reduceIte] at hchk
-  split at hchk
-  · cases hchk
-  · rename_i hany
-    have hany' := Bool.eq_false_iff.2 hany
-    rw [List.any_eq_false] at hany'
-    have hm : (id, t, p, off) ∈ (replay c h).prod := by rw [replay_prod]; exact mem_producedOf.2 hp
-    have := hany' _ hm
-    simp only [hexists, hsel, decide_true, Bool.true_and, Bool.not_eq_true, Bool.not_eq_false', List.any_eq_true] at this
-    obtain ⟨r, hr, hrr⟩ := this
-    obtain ⟨t', p', o', i'⟩ := r
-    simp only [Bool.and_eq_true, beq_iff_eq] at hrr
-    obtain ⟨⟨h1, h2⟩, h3⟩ := hrr
-    subst h1; subst h2; subst h3
-    rw [replay_ret] at hr
-    exact ⟨o', mem_returnedOf.1 hr⟩
+  have hunc : uncovered c (replay c h) = [] := by
+    split at hchk
+    · assumption
+    · split at hchk <;> cases hchk
+  have hm : (id, t, g, p, off) ∈ (replay c h).prod := by rw [replay_prod]; exact mem_producedOf.2 hp
+  have hnot : (id, t, g, p, off) ∉ uncovered c (replay c h) := by rw [hunc]; simp
+  have hany : ((replay c h).ret.any (fun r => r.2.2.2.2 == id && r.1 == t && r.2.1 == g && r.2.2.1 == p)) = true := by
+    apply Classical.byContradiction
+    intro hn
+    apply hnot
+    simp only [uncovered, List.mem_filter, hm, true_and]
+    have hn' := Bool.eq_false_iff.2 hn
+    simp only [hsel, hexists, ← hcur, hn', BEq.rfl, decide_true, Bool.and_self, Bool.not_false]
+  rw [List.any_eq_true] at hany
+  obtain ⟨r, hr, hrr⟩ := hany
+  obtain ⟨t', g', p', o', i'⟩ := r
+  simp only [Bool.and_eq_true, beq_iff_eq] at hrr
+  obtain ⟨⟨⟨h1, h2⟩, h3⟩, h4⟩ := hrr
+  subst h1; subst h2; subst h3; subst h4
+  rw [replay_ret] at hr
+  exact ⟨o', mem_returnedOf.1 hr⟩
 
 /-! ### non-vacuity -/
 
@@ -133,34 +170,90 @@ theorem selected_partitions_covered_at_quiescence (c : Cfg) (h : List Ev) (s : S
 a record produced afterwards to partition 1 is not returned, one to partition 0 is; the topic grows to 3 partitions and
 the record of the new partition 2 is returned; complete and accepted to the quiescent end. -/
 def exNamed : List Ev :=
-  [.selTopic 0, .created 0 2 false false false, .refresh, .produced 1 0 0 0, .produced 2 0 1 0,
-   .returned 0 0 0 1, .returned 0 1 0 2, .removePart 0 1, .produced 3 0 0 1, .produced 4 0 1 1, .returned 0 0 1 3,
-   .grown 0 3, .refresh, .produced 5 0 2 0, .returned 0 2 0 5]
+  [.selTopic 0, .created 0 0 2 false false false, .refresh, .produced 1 0 0 0 0, .produced 2 0 0 1 0,
+   .returned 0 0 0 0 1, .returned 0 0 1 0 2, .removePart 0 1, .produced 3 0 0 0 1, .produced 4 0 0 1 1, .returned 0 0 0 1 3,
+   .grown 0 3, .refresh, .produced 5 0 0 2 0, .returned 0 0 2 0 5]
 
 example : accepts { regex := false } (exNamed ++ [.quiesce]) = true := by decide
 example : isIncomplete exNamed = false := by decide
-example : selected { regex := false } (replay { regex := false } exNamed) 0 2 = true ∧
-    aliveParts (replay { regex := false } exNamed) 0 = 3 := by decide
+example : selected { regex := false } (replay { regex := false } exNamed) 0 0 2 = true ∧
+    aliveParts (replay { regex := false } exNamed) 0 = 3 ∧ genOf (replay { regex := false } exNamed) 0 = 0 := by decide
 /-- the monitor refuses a record of the removed partition, … -/
-example : accepts { regex := false } (exNamed ++ [.returned 0 1 1 4]) = false := by decide
+example : accepts { regex := false } (exNamed ++ [.returned 0 0 1 1 4]) = false := by decide
 /-- … accepts it once the partition is added again, … -/
-example : accepts { regex := false } (exNamed ++ [.addPart 0 1, .returned 0 1 1 4]) = true := by decide
+example : accepts { regex := false } (exNamed ++ [.addPart 0 1, .returned 0 0 1 1 4]) = true := by decide
 /-- … and refuses the quiescent end when the grown partition was never consumed. -/
 example : accepts { regex := false } (exNamed.dropLast ++ [.quiesce]) = false := by decide
 
 /-- regex selection: topic 1 matches, topic 6 is internal and matches, topic 2 matches but is excluded; topic 1 is purged
 and re-discovered at the next refresh. -/
 def exRegex : List Ev :=
-  [.created 1 1 false true false, .created 6 1 true true false, .created 2 1 false true true, .refresh,
-   .produced 1 1 0 0, .produced 2 6 0 0, .produced 3 2 0 0, .returned 1 0 0 1, .purged 1, .refresh, .returned 1 0 0 1]
+  [.created 1 0 1 false true false, .created 6 0 1 true true false, .created 2 0 1 false true true, .refresh,
+   .produced 1 1 0 0 0, .produced 2 6 0 0 0, .produced 3 2 0 0 0, .returned 1 0 0 0 1, .purged 1, .refresh, .returned 1 0 0 0 1]
 
 example : accepts { regex := true } (exRegex ++ [.quiesce]) = true := by decide
 example : (topicOf (replay { regex := true } (exRegex.take 8)) 1).isSome = true := by decide
 /-- refused: a record of the purged topic before the refresh, of the internal topic, of the excluded topic -/
-example : accepts { regex := true } (exRegex.take 9 ++ [.returned 1 0 0 1]) = false := by decide
-example : accepts { regex := true } (exRegex ++ [.returned 6 0 0 2]) = false := by decide
-example : accepts { regex := true } (exRegex ++ [.returned 2 0 0 3]) = false := by decide
+example : accepts { regex := true } (exRegex.take 9 ++ [.returned 1 0 0 0 1]) = false := by decide
+example : accepts { regex := true } (exRegex ++ [.returned 6 0 0 0 2]) = false := by decide
+example : accepts { regex := true } (exRegex ++ [.returned 2 0 0 0 3]) = false := by decide
 /-- a topic deleted before its purge never comes back -/
-example : accepts { regex := true } (exRegex ++ [.deleted 1, .purged 1, .refresh, .returned 1 0 0 1]) = false := by decide
+example : accepts { regex := true } (exRegex ++ [.deleted 1, .purged 1, .refresh, .returned 1 0 0 0 1]) = false := by decide
+
+/-! #### deletion and re-creation -/
+
+/-- regex selection, re-creation OUTSIDE the window: topic 1 (2 partitions) is consumed, deleted, the client sees it
+missing in two metadata responses (and purges it by itself: not an event), it is created again with 3 partitions
+(incarnation 1), re-discovered, and a record of every partition of the new incarnation is returned. Record 2 of the old
+incarnation was acknowledged but never returned: not owed. -/
+def exRecreate : List Ev :=
+  [.created 1 0 2 false true false, .refresh, .produced 1 1 0 0 0, .produced 2 1 0 1 0, .returned 1 0 0 0 1,
+   .deleted 1, .refresh, .refresh, .created 1 1 3 false true false, .refresh,
+   .produced 3 1 1 0 0, .produced 4 1 1 1 0, .produced 5 1 1 2 0,
+   .returned 1 1 0 0 3, .returned 1 1 1 0 4, .returned 1 1 2 0 5]
+
+example : accepts { regex := true } (exRecreate ++ [.quiesce]) = true := by decide
+example : isIncomplete exRecreate = false := by decide
+/-- the hypotheses of the coverage theorem hold for the new incarnation (and not for the deleted one) -/
+example : genOf (replay { regex := true } exRecreate) 1 = 1 ∧ aliveParts (replay { regex := true } exRecreate) 1 = 3 ∧
+    selected { regex := true } (replay { regex := true } exRecreate) 1 1 2 = true := by decide
+/-- the recreated topic never consumed (what a client does that keeps the cursors of the old topic ID): refused, … -/
+example : check { regex := true } (replay { regex := true } (exRecreate.take 13)) .quiesce
+    = some "C39.recreated-topic-never-consumed" := by decide
+/-- … also when only the new third partition is missing; -/
+example : accepts { regex := true } (exRecreate.dropLast ++ [.quiesce]) = false := by decide
+/-- a record of the deleted incarnation may still come out before the first record of the new one, not after it -/
+example : accepts { regex := true } (exRecreate.take 13 ++ [.returned 1 0 1 0 2, .returned 1 1 0 0 3]) = true := by decide
+example : check { regex := true } (replay { regex := true } exRecreate) (.returned 1 0 1 0 2)
+    = some "C39.record-of-deleted-incarnation-returned" := by decide
+
+/-- regex selection, re-creation INSIDE the window: the topic is created again before the client considers it deleted
+(one refresh without it, or none at all); the monitor owes the same coverage. The topic is purged by the user while it
+is deleted (that incarnation is gone for good) — the new incarnation is selected all the same. -/
+def exRecreateInside : List Ev :=
+  [.created 1 0 1 false true false, .refresh, .produced 1 1 0 0 0, .returned 1 0 0 0 1,
+   .deleted 1, .purged 1, .refresh, .created 1 1 2 false true false, .refresh, .produced 2 1 1 0 0, .produced 3 1 1 1 0,
+   .returned 1 1 0 0 2, .returned 1 1 1 0 3]
+
+example : accepts { regex := true } (exRecreateInside ++ [.quiesce]) = true := by decide
+example : accepts { regex := true } (exRecreateInside.take 11 ++ [.quiesce]) = false := by decide
+/-- the purged deleted incarnation never comes back, the new one does -/
+example : accepts { regex := true } (exRecreateInside.take 11 ++ [.returned 1 0 0 0 1]) = false := by decide
+/-- no refresh at all between deletion and re-creation -/
+example : accepts { regex := true }
+    [.created 1 0 1 false true false, .refresh, .deleted 1, .created 1 1 1 false true false, .produced 1 1 1 0 0, .refresh, .quiesce] = false := by decide
+
+/-- named selection: ConsumeTopics(0); the topic is deleted and created again; the user purges it and adds it again (the
+documented recovery for the UNKNOWN_TOPIC_ID stall) and the new incarnation is consumed. -/
+def exRecreateNamed : List Ev :=
+  [.selTopic 0, .created 0 0 1 false false false, .refresh, .produced 1 0 0 0 0, .returned 0 0 0 0 1,
+   .deleted 0, .refresh, .created 0 1 2 false false false, .purged 0, .addTopic 0, .refresh,
+   .produced 2 0 1 0 0, .produced 3 0 1 1 0, .returned 0 1 0 0 2, .returned 0 1 1 0 3]
+
+example : accepts { regex := false } (exRecreateNamed ++ [.quiesce]) = true := by decide
+example : accepts { regex := false } (exRecreateNamed.dropLast ++ [.quiesce]) = false := by decide
+/-- an incarnation is created only after the previous one was deleted, and numbered consecutively -/
+example : accepts { regex := false } [.created 0 0 1 false false false, .created 0 1 1 false false false] = false := by decide
+example : accepts { regex := false } [.created 0 0 1 false false false, .deleted 0, .created 0 2 1 false false false] = false := by decide
 
 end Props.C39
